@@ -185,11 +185,16 @@ def apply_pass(proto_bytes, pass_name, seed_outputs, seed_inputs, want_c14=True,
         onnx.checker.check_model(after_proto, full_check=full_check)
     except Exception as e:  # noqa: BLE001
         c05.append(("checker_rejects_after_pass", str(e)[:160]))
-    if len(after_proto.graph.output) != len(seed_outputs[0]) if not isinstance(seed_outputs[0], tuple) else False:
+    no_eval = seed_outputs is None
+    if not no_eval and (len(after_proto.graph.output) != len(seed_outputs[0]) if not isinstance(seed_outputs[0], tuple) else False):
         c05.append(("number_of_graph_outputs_changed", (len(seed_outputs[0]), len(after_proto.graph.output))))
-    if non_initializer_inputs(after_proto) != seed_inputs:
-        c05.append(("non_initializer_inputs_changed", (seed_inputs, non_initializer_inputs(after_proto))))
-    if not any(c[0] == "checker_rejects_after_pass" for c in c05):
+    # number and order of non-initializer inputs; an input keeps its name unless it is returned directly as a graph
+    # output (the one case in which two interface names coincide and a pass is forced to rename one of them)
+    ins_before, ins_after = non_initializer_inputs(proto), non_initializer_inputs(after_proto)
+    returned = {o.name for o in proto.graph.output}
+    if len(ins_after) != len(seed_inputs) or any(a != b and a not in returned for a, b in zip(ins_before, ins_after)):
+        c05.append(("non_initializer_inputs_changed", (ins_before, ins_after)))
+    if not no_eval and not any(c[0] == "checker_rejects_after_pass" for c in c05):
         if seed_feeds is None:
             got = outputs_on_feeds(after_proto)
         else:
@@ -340,8 +345,9 @@ def explore_seed(desc, proto, depth, which):
         full = True
     except Exception:  # noqa: BLE001
         full = False
-    seed_outputs = outputs_on_feeds(proto)
-    if any(isinstance(o, tuple) for o in seed_outputs) and not c14_only:
+    no_eval = isinstance(desc[0], str) and desc[0].startswith("noeval:")
+    seed_outputs = None if no_eval else outputs_on_feeds(proto)
+    if not no_eval and any(isinstance(o, tuple) for o in seed_outputs) and not c14_only:
         return 0, 0, 0, {}, "seed_not_evaluable"
     seed_inputs = non_initializer_inputs(proto)
     seed_feeds = gg.feeds_for(proto)
@@ -434,6 +440,7 @@ def run_exploration(tier):
         for lo in range(0, count, step):
             tasks.append((which, lo, min(count, lo + step), depth, tier))
     res = common.pmap(_work, common.shuffled(tasks, "passes"), chunksize=1)
+    res = list(res) + list(common.pmap(_api_work, [(i, 2) for i in range(len(api_models()))], chunksize=1))
     tot = {"states": 0, "transitions": 0, "modifying": 0}
     found = {}
     status = {}
@@ -446,6 +453,161 @@ def run_exploration(tier):
         for k, v in st.items():
             status[k] = status.get(k, 0) + v
     return tot, found, status
+
+
+# ---------------------------------------------------------------------------
+# C05: models built through the API and transformed IN MEMORY (no serialisation between passes): tensor
+# representations a deserialised model never has (non-contiguous arrays, lazy tensors, python-list tensors, string
+# tensors) and pass sequences that see each other's in-memory leftovers
+
+def _f32(shape=(2,)):
+    return dict(type=ir.TensorType(ir.DataType.FLOAT), shape=ir.Shape(list(shape)))
+
+
+def api_models():
+    """(label, builder) pairs; every builder returns a fresh, checker-valid ir.Model with inputs x:[2] and c:bool."""
+    def base(nodes_of, inits=()):
+        def build():
+            x = ir.Value(name="x", **_f32())
+            c = ir.Value(name="c", type=ir.TensorType(ir.DataType.BOOL), shape=ir.Shape([]))
+            ivals = [mk() for mk in inits]
+            nodes, outs = nodes_of(x, c, ivals)
+            g = ir.Graph([x, c], outs, nodes=nodes, initializers=ivals, opset_imports={"": gg.OPSET}, name="main")
+            return ir.Model(g, ir_version=10)
+        return build
+
+    def init(name, arr_fn, wrap="tensor"):
+        def mk():
+            arr = arr_fn()
+            if wrap == "tensor":
+                t = ir.Tensor(arr, name=name)
+            elif wrap == "lazy":
+                t = ir.LazyTensor(lambda: ir.Tensor(arr, name=name), dtype=ir.DataType.FLOAT, shape=ir.Shape(list(arr.shape)), name=name)
+            elif wrap == "list":
+                t = ir.tensor(arr.tolist(), dtype=ir.DataType.FLOAT, name=name)
+            return ir.Value(name=name, const_value=t, type=ir.TensorType(t.dtype), shape=ir.Shape(list(arr.shape)))
+        return mk
+
+    def two_inits_consumed(x, c, iv):
+        # y = ((x * a[0]) + b[0]) - so that a and b matter separately
+        def row(v, nm):
+            k = ir.node("Constant", [], attributes={"value": ir.tensor([0], dtype=ir.DataType.INT64, name="")}, name=f"idx_{nm}")
+            k.outputs[0].name = f"idx_{nm}_o"
+            return k
+        n1 = ir.node("Mul", [x, iv[0]], name="mul_a")
+        n1.outputs[0].name = "xa"
+        n2 = ir.node("Add", [n1.outputs[0], iv[1]], name="add_b")
+        n2.outputs[0].name = "y"
+        n2.outputs[0].type = ir.TensorType(ir.DataType.FLOAT)
+        n2.outputs[0].shape = ir.Shape([2, 2])
+        return [n1, n2], [n2.outputs[0]]
+
+    out = []
+    sq = lambda: np.array([[1.0, 2.0], [3.0, 4.0]], dtype=np.float32)  # noqa: E731
+    # a and b hold the same logical matrix; one of them is a transposed view (not C-contiguous)
+    out.append(("equal_initializers_one_non_contiguous", base(two_inits_consumed, [init("a", lambda: sq().T.copy().T), init("b", sq)])))
+    out.append(("equal_initializers_both_non_contiguous", base(two_inits_consumed, [init("a", lambda: sq().T.copy().T), init("b", lambda: sq().T.copy().T)])))
+    # same bytes in memory order, different logical matrix: a = M (C order), b = M.T viewed from the same buffer
+    out.append(("transposed_view_of_equal_buffer", base(two_inits_consumed, [init("a", sq), init("b", lambda: sq().T)])))
+    out.append(("equal_initializers_lazy_and_eager", base(two_inits_consumed, [init("a", sq, "lazy"), init("b", sq)])))
+    out.append(("equal_initializers_from_python_lists", base(two_inits_consumed, [init("a", sq, "list"), init("b", sq, "list")])))
+    out.append(("fortran_ordered_initializers", base(two_inits_consumed, [init("a", lambda: np.asfortranarray(sq())), init("b", lambda: np.asfortranarray(sq()))])))
+
+    def const_attr_non_contiguous(x, c, iv):
+        t1 = ir.Tensor(sq().T, name="")
+        t2 = ir.Tensor(np.ascontiguousarray(sq().T), name="")
+        k1 = ir.node("Constant", [], attributes={"value": t1}, name="k1")
+        k1.outputs[0].name = "k1_o"
+        k2 = ir.node("Constant", [], attributes={"value": t2}, name="k2")
+        k2.outputs[0].name = "k2_o"
+        n1 = ir.node("Mul", [x, k1.outputs[0]], name="mul_k1")
+        n1.outputs[0].name = "xk1"
+        n2 = ir.node("Add", [n1.outputs[0], k2.outputs[0]], name="add_k2")
+        n2.outputs[0].name = "y"
+        n2.outputs[0].type = ir.TensorType(ir.DataType.FLOAT)
+        n2.outputs[0].shape = ir.Shape([2, 2])
+        return [k1, k2, n1, n2], [n2.outputs[0]]
+
+    out.append(("constant_attribute_non_contiguous", base(const_attr_non_contiguous)))
+    return out
+
+
+def _api_eval(proto):
+    return outputs_on_feeds(proto)
+
+
+def _api_work(task):
+    idx, depth = task
+    label, build = api_models()[idx]
+    seed = ir.to_proto(build())
+    onnx.checker.check_model(seed, full_check=True)
+    feeds = gg.feeds_for(seed)
+    want = [evalproto.run(seed, f) for f in feeds]
+    found = {}
+    n = 0
+    names = [n_ for n_, _ in PASSES]
+    hists = [(a,) for a in names] + ([(a, b) for a in names for b in names] if depth >= 2 else [])
+    distinct = set()
+
+    def rec(clause, h, detail):
+        found.setdefault(("c05", ("api", label, clause, h[-1])), {"clause": clause, "seed": ["api:" + label], "seed_hex": None, "path": list(h), "detail": detail})
+
+    for h in hists:
+        model = build()
+        n += 1
+        failed_at = None
+        for k, pname in enumerate(h):
+            try:
+                model = PASS_INDEX[pname]()(model).model
+            except Exception as e:  # noqa: BLE001
+                failed_at = k
+                if k == len(h) - 1:  # a failure of an earlier pass belongs to the shorter history
+                    rec("pass_raises_on_valid_model", h, f"{type(e).__name__}: {str(e)[:140]}")
+                break
+        if failed_at is not None:
+            continue
+        try:
+            after = ir.to_proto(model)
+        except Exception as e:  # noqa: BLE001
+            rec("model_not_serializable_after_pass", h, f"{type(e).__name__}: {str(e)[:140]}")
+            continue
+        distinct.add(after.SerializeToString(deterministic=True))
+        try:
+            onnx.checker.check_model(after, full_check=True)
+        except Exception as e:  # noqa: BLE001
+            rec("checker_rejects_after_pass", h, str(e)[:160])
+            continue
+        if non_initializer_inputs(after) != non_initializer_inputs(seed) or len(after.graph.output) != len(seed.graph.output):
+            rec("interface_changed", h, (non_initializer_inputs(after), len(after.graph.output)))
+        for i, (f, a) in enumerate(zip(feeds, want)):
+            try:
+                b = evalproto.run(after, f)
+            except evalproto.EvalError as e:
+                rec("model_no_longer_evaluates", h, str(e)[:140])
+                break
+            if not evalproto.same(a, b):
+                rec("outputs_differ", h, {"feed": i, "before": _short(a), "after": _short(b)})
+                break
+    return len(distinct), n, max(0, len(distinct) - 1), found, {"ok": 1}
+
+
+def _short(o):
+    try:
+        return [np.asarray(x).tolist() for x in o]
+    except Exception:  # noqa: BLE001
+        return repr(o)[:120]
+
+
+def replay_api(label, history, clause):
+    for lb, build in api_models():
+        if "api:" + lb == label:
+            idx = [l_ for l_, _ in api_models()].index(lb)
+            break
+    else:
+        return True, f"unknown api model {label}"
+    _, _, _, found, _ = _api_work((idx, len(history)))
+    bad = [f for f in found.values() if f["path"] == list(history) and f["clause"] == clause]
+    return (not bad), [b["detail"] for b in bad][:2]
 
 
 # ---------------------------------------------------------------------------
